@@ -14,14 +14,14 @@ var properties = map[string]*propDef{
 	"C01": {Rules: []string{"APPLY", "TAB-NOTE", "TAB-DEGREE", "TAB-CHORDS", "TAB-ATTRS", "TAB-DEFAULTS", "EXTENDS", "PLAYLOOP", "NOTE", "OPT", "LOOKUP"}},
 	"C02": {Rules: []string{"TICKS", "PENDING", "NOTE", "PLAYLOOP", "OPMAP", "TRACKADD"}},
 	"C03": {Rules: []string{"TAB-KEYSIG", "TAB-NOTE", "TAB-DEGREE", "TAB-SEARCH"}},
-	"C04": {Rules: []string{}},
-	"C05": {Rules: []string{"APPLY", "PLAYLOOP", "OPT"}},
+	"C04": {Rules: []string{"GEN-YACC", "TOKENS", "LEXMODE", "PARSEERR", "EOFPRED", "UNDERSCORE"}},
+	"C05": {Rules: []string{"CONVORDER", "CLASSIFY", "APPLY", "PLAYLOOP", "OPT"}},
 	"C06": {Rules: []string{"OWN", "TRACKADD", "PENDING", "SELECT", "TRACKCOUNT", "FLAGS"}},
 	"C07": {Rules: []string{"TAB-DYNAMICS", "TAB-DEFAULTS", "TAB-KEYSIG", "OPT", "OPMAP", "PENDING", "NARROW", "PLAYLOOP", "FLAGS", "REJECT"}},
 	"C08": {Rules: []string{"NOTE", "PLAYLOOP", "PENDING", "SELECT", "OPMAP", "TRACKCOUNT", "TAB-DYNAMICS"}},
 	"C09": {Rules: []string{"EXIT", "EOFPRED", "NILOK", "VALIDATE", "REJECT", "MUST", "RECUR", "ERRDROP", "FLAGS", "NARROW", "LOOKUP", "DEBUGOUT", "PLAYLOOP", "APPLY", "CONC", "SELECT"}},
 	"C10": {Rules: []string{"TAB-NOTATION", "TAB-REGEX", "TAB-DYNAMICS"}},
-	"C11": {Rules: []string{}},
+	"C11": {Rules: []string{"SPELL", "LEXMODE", "UNDERSCORE"}},
 	"C12": {Rules: []string{"MAPORDER", "CONC", "NONDET", "IOLAYER", "DEBUGOUT"}},
 	"C13": {Rules: []string{"TAB-KEYSIG"}},
 	"C14": {Rules: []string{"TAB-CIRCLE"}},
